@@ -28,7 +28,7 @@ Ltac run_step poll p s o s1 E :=
 Lemma run_grows : forall poll p s o s',
   run poll p s = (o, s') -> polls s <= polls s' /\ late s <= late s'.
 Proof.
-  intros poll p. induction p as [| | |p IHp q IHq|p IHp q IHq r IHr|p IHp q IHq];
+  intros poll p. induction p as [| | |p IHp q IHq|p IHp q IHq r IHr|p IHp q IHq r IHr];
     intros s o s' H; simpl in H.
   - inversion H; subst. lia.
   - destruct (poll (polls s)); inversion H; subst; simpl; lia.
@@ -43,7 +43,7 @@ Proof.
     + apply IHq in H. lia.
   - run_step poll p s o1 s1 E1. apply IHp in E1.
     destruct (is_done o1).
-    + inversion H; subst. lia.
+    + apply IHr in H. lia.
     + destruct (poll (polls s1)).
       * inversion H; subst. simpl. lia.
       * apply IHq in H. simpl in H. lia.
@@ -68,7 +68,7 @@ Qed.
 Lemma late_means_cancelled : forall poll p s o s', mono poll ->
   run poll p s = (o, s') -> late s' <> late s -> cancelled poll s'.
 Proof.
-  intros poll p. induction p as [| | |p IHp q IHq|p IHp q IHq r IHr|p IHp q IHq];
+  intros poll p. induction p as [| | |p IHp q IHq|p IHp q IHq r IHr|p IHp q IHq r IHr];
     intros s o s' Hm H Hl; simpl in H.
   - inversion H; subst. congruence.
   - destruct (poll (polls s)) as [e|] eqn:E; inversion H; subst; simpl in *.
@@ -95,7 +95,10 @@ Proof.
       * apply (run_keeps_cancelled poll q s1 o s' Hm H Hc1).
   - run_step poll p s o1 s1 E1.
     destruct (is_done o1).
-    + inversion H; subst. apply (IHp s o1 s' Hm E1 Hl).
+    + destruct (N.eq_dec (late s1) (late s)) as [Heq|Hne].
+      * apply (IHr s1 o s' Hm H). congruence.
+      * pose proof (IHp s o1 s1 Hm E1 Hne) as Hc1.
+        apply (run_keeps_cancelled poll r s1 o s' Hm H Hc1).
     + destruct (poll (polls s1)) as [e|] eqn:E.
       * inversion H; subst. unfold cancelled. simpl.
         rewrite (Hm (polls s1) (polls s1 + 1) e); [discriminate|lia|exact E].
@@ -106,7 +109,7 @@ Qed.
 
 Lemma nopoll_same : forall poll p s o s', nopoll p = true -> run poll p s = (o, s') -> s' = s.
 Proof.
-  intros poll p. induction p as [| | |p IHp q IHq|p IHp q IHq r IHr|p IHp q IHq];
+  intros poll p. induction p as [| | |p IHp q IHq|p IHp q IHq r IHr|p IHp q IHq r IHr];
     intros s o s' Hn H; simpl in H, Hn; try discriminate.
   - inversion H; reflexivity.
   - inversion H; reflexivity.
@@ -124,7 +127,7 @@ Qed.
 
 Lemma nofail_done : forall poll p s o s', nofail p = true -> run poll p s = (o, s') -> o = Done.
 Proof.
-  intros poll p. induction p as [| | |p IHp q IHq|p IHp q IHq r IHr|p IHp q IHq];
+  intros poll p. induction p as [| | |p IHp q IHq|p IHp q IHq r IHr|p IHp q IHq r IHr];
     intros s o s' Hn H; simpl in H, Hn; try discriminate.
   - inversion H; reflexivity.
   - apply andb_prop in Hn. destruct Hn as [Hp Hq].
@@ -135,15 +138,16 @@ Proof.
     destruct (is_done o1).
     + apply (IHr _ _ _ Hr H).
     + apply (IHq _ _ _ Hq H).
-  - run_step poll p s o1 s1 E1. apply (IHp _ _ _ Hn) in E1. subst o1. simpl in H.
-    inversion H; reflexivity.
+  - apply andb_prop in Hn. destruct Hn as [Hp Hr].
+    run_step poll p s o1 s1 E1. apply (IHp _ _ _ Hp) in E1. subst o1. simpl in H.
+    apply (IHr _ _ _ Hr H).
 Qed.
 
 (* guard: started cancelled, p does not return Done *)
 Lemma guard_sound : forall poll p s o s', mono poll -> guard p = true ->
   cancelled poll s -> run poll p s = (o, s') -> o <> Done.
 Proof.
-  intros poll p. induction p as [| | |p IHp q IHq|p IHp q IHq r IHr|p IHp q IHq];
+  intros poll p. induction p as [| | |p IHp q IHq|p IHp q IHq r IHr|p IHp q IHq r IHr];
     intros s o s' Hm Hg Hc H; simpl in H, Hg; try discriminate.
   - unfold cancelled in Hc. destruct (poll (polls s)); [|congruence].
     inversion H; subst. discriminate.
@@ -169,7 +173,9 @@ Proof.
     pose proof (run_keeps_cancelled poll p s o1 s1 Hm E1 Hc) as Hc1.
     destruct (is_done o1) eqn:Ed.
     + apply is_done_true in Ed. subst o1.
-      exfalso. apply (IHp s Done s1 Hm Hg Hc E1). reflexivity.
+      apply orb_prop in Hg. destruct Hg as [Hg|Hg].
+      * exfalso. apply (IHp s Done s1 Hm Hg Hc E1). reflexivity.
+      * apply (IHr s1 o s' Hm Hg Hc1 H).
     + unfold cancelled in Hc1. destruct (poll (polls s1)); [|congruence].
       inversion H; subst. intro Hd. subst. discriminate.
 Qed.
@@ -178,7 +184,7 @@ Qed.
 Lemma tight_sound : forall poll p s s', mono poll -> tight p = true ->
   run poll p s = (Done, s') -> late s' = late s.
 Proof.
-  intros poll p. induction p as [| | |p IHp q IHq|p IHp q IHq r IHr|p IHp q IHq];
+  intros poll p. induction p as [| | |p IHp q IHq|p IHp q IHq r IHr|p IHp q IHq r IHr];
     intros s s' Hm Ht H; simpl in H, Ht.
   - inversion H; reflexivity.
   - destruct (poll (polls s)); inversion H; subst. reflexivity.
@@ -209,13 +215,18 @@ Proof.
       * apply orb_prop in Hnq. destruct Hnq as [Hnp|Hgq].
         -- exfalso. apply Hne. rewrite (nopoll_same poll p s o1 s1 Hnp E1). reflexivity.
         -- exfalso. apply (guard_sound poll q s1 Done s' Hm Hgq Hc1 H). reflexivity.
-  - apply andb_prop in Ht. destruct Ht as [Htp Htq].
+  - apply andb_prop in Ht. destruct Ht as [Ht Htq]. apply andb_prop in Ht. destruct Ht as [Htr Htp].
     run_step poll p s o1 s1 E1.
     destruct (is_done o1) eqn:Ed.
-    + apply is_done_true in Ed. subst o1. inversion H; subst.
-      apply (IHp s s' Hm Htp E1).
+    + apply is_done_true in Ed. subst o1.
+      destruct (N.eq_dec (late s1) (late s)) as [Heq|Hne].
+      * rewrite <- Heq. apply (IHr s1 s' Hm Htr H).
+      * apply orb_prop in Htp. destruct Htp as [Htp|Hgr].
+        -- exfalso. apply Hne. apply (IHp s s1 Hm Htp E1).
+        -- exfalso. pose proof (late_means_cancelled poll p s Done s1 Hm E1 Hne) as Hc1.
+           apply (guard_sound poll r s1 Done s' Hm Hgr Hc1 H). reflexivity.
     + destruct (poll (polls s1)) as [e|] eqn:E.
-      * inversion H; subst. discriminate.
+      * discriminate H.
       * destruct (N.eq_dec (late s1) (late s)) as [Heq|Hne].
         -- rewrite <- Heq. apply (IHq (tick s1) s' Hm Htq H).
         -- pose proof (late_means_cancelled poll p s o1 s1 Hm E1 Hne) as Hc1.
@@ -226,7 +237,7 @@ Qed.
 Lemma ctxerr_from_poll : forall poll p s e s',
   run poll p s = (CtxErr e, s') -> exists i, poll i = Some e.
 Proof.
-  intros poll p. induction p as [| | |p IHp q IHq|p IHp q IHq r IHr|p IHp q IHq];
+  intros poll p. induction p as [| | |p IHp q IHq|p IHp q IHq r IHr|p IHp q IHq r IHr];
     intros s e s' H; simpl in H.
   - discriminate.
   - destruct (poll (polls s)) as [e'|] eqn:E; inversion H; subst. exists (polls s). exact E.
@@ -238,10 +249,35 @@ Proof.
     + apply (IHr _ _ _ H).
     + apply (IHq _ _ _ H).
   - run_step poll p s o1 s1 E1. destruct (is_done o1) eqn:Ed.
-    + inversion H.
-    + destruct (poll (polls s1)).
-      * inversion H; subst. apply (IHp _ _ _ E1).
+    + apply (IHr _ _ _ H).
+    + destruct (poll (polls s1)) as [e'|] eqn:E.
+      * inversion H; subst. exists (polls s1). exact E.
       * apply (IHq _ _ _ H).
+Qed.
+
+(* a context error is only ever returned after a late poll *)
+Lemma ctxerr_late : forall poll p s e s',
+  run poll p s = (CtxErr e, s') -> late s < late s'.
+Proof.
+  intros poll p. induction p as [| | |p IHp q IHq|p IHp q IHq r IHr|p IHp q IHq r IHr];
+    intros s e s' H; simpl in H.
+  - discriminate.
+  - destruct (poll (polls s)); inversion H; subst. simpl. lia.
+  - discriminate.
+  - run_step poll p s o1 s1 E1. pose proof (run_grows _ _ _ _ _ E1) as G.
+    destruct (is_done o1).
+    + apply IHq in H. lia.
+    + inversion H; subst. apply (IHp _ _ _ E1).
+  - run_step poll p s o1 s1 E1. pose proof (run_grows _ _ _ _ _ E1) as G.
+    destruct (is_done o1).
+    + apply IHr in H. lia.
+    + apply IHq in H. lia.
+  - run_step poll p s o1 s1 E1. pose proof (run_grows _ _ _ _ _ E1) as G.
+    destruct (is_done o1).
+    + apply IHr in H. lia.
+    + destruct (poll (polls s1)).
+      * inversion H; subst. simpl. lia.
+      * apply IHq in H. simpl in H. lia.
 Qed.
 
 (* the late-poll bounds *)
@@ -250,7 +286,7 @@ Lemma late_bounds : forall poll p s o s', mono poll -> run poll p s = (o, s') ->
   (poll (polls s) = None -> late s' <= late s + lb p).
 Proof.
   intros poll p.
-  induction p as [| | |p IHp q IHq|p IHp q IHq r IHr|p IHp q IHq];
+  induction p as [| | |p IHp q IHq|p IHp q IHq r IHr|p IHp q IHq r IHr];
     intros s o s' Hm H; simpl in H.
   - inversion H; subst. simpl. lia.
   - destruct (poll (polls s)); inversion H; subst; simpl; lia.
@@ -329,28 +365,48 @@ Proof.
   - (* Retry *)
     run_step poll p s o1 s1 E1.
     destruct (IHp s o1 s1 Hm E1) as [IHpc IHpb].
-    destruct (nofail p) eqn:En.
-    + pose proof (nofail_done poll p s o1 s1 En E1) as Hd. subst o1. simpl in H.
-      inversion H; subst. simpl. rewrite En. split; assumption.
-    + simpl. rewrite En.
+    assert (Hr : is_done o1 = true -> (cancelled poll s1 -> late s' <= late s1 + lc r) /\
+                                      late s' <= late s1 + N.max (lb r) (lc r)).
+    { intro Ed. rewrite Ed in H. destruct (IHr s1 o s' Hm H) as [Hrc Hrb].
+      split; [exact Hrc|]. destruct (cancelled_dec poll s1) as [Hc1|Hn1].
+      - specialize (Hrc Hc1). lia.
+      - specialize (Hrb Hn1). lia. }
+    assert (Hnf : nofail p = true -> is_done o1 = true).
+    { intro En. rewrite (nofail_done poll p s o1 s1 En E1). reflexivity. }
+    split.
+    + intro Hc. specialize (IHpc Hc). simpl.
+      pose proof (run_keeps_cancelled poll p s o1 s1 Hm E1 Hc) as Hc1.
       destruct (is_done o1) eqn:Ed.
-      * inversion H; subst.
-        split; [intro Hc; specialize (IHpc Hc); lia|intro Hnc; specialize (IHpb Hnc); lia].
-      * destruct (poll (polls s1)) as [e|] eqn:E.
-        -- inversion H; subst. simpl.
-           split; [intro Hc; specialize (IHpc Hc); lia|intro Hnc; specialize (IHpb Hnc); lia].
+      * destruct (Hr eq_refl) as [Hrc _]. specialize (Hrc Hc1).
+        destruct (guard p) eqn:Eg.
+        -- exfalso. apply is_done_true in Ed. subst o1.
+           apply (guard_sound poll p s Done s1 Hm Eg Hc E1). reflexivity.
+        -- destruct (nofail p); lia.
+      * destruct (nofail p) eqn:En; [specialize (Hnf eq_refl); discriminate|].
+        unfold cancelled in Hc1. destruct (poll (polls s1)); [|congruence].
+        inversion H; subst. simpl. destruct (guard p); lia.
+    + intro Hnc. specialize (IHpb Hnc). simpl.
+      destruct (is_done o1) eqn:Ed.
+      * destruct (Hr eq_refl) as [Hrc Hrb].
+        destruct (N.eq_dec (late s1) (late s)) as [Heq|Hne].
+        -- destruct (nofail p); destruct (tight p); lia.
+        -- pose proof (late_means_cancelled poll p s o1 s1 Hm E1 Hne) as Hc1.
+           specialize (Hrc Hc1).
+           destruct (tight p) eqn:Et.
+           ++ exfalso. apply Hne. apply is_done_true in Ed. subst o1.
+              apply (tight_sound poll p s s1 Hm Et E1).
+           ++ destruct (nofail p); lia.
+      * destruct (nofail p) eqn:En; [specialize (Hnf eq_refl); discriminate|].
+        destruct (poll (polls s1)) as [e|] eqn:E.
+        -- inversion H; subst. simpl. destruct (tight p); lia.
         -- assert (Heq : late s1 = late s).
            { destruct (N.eq_dec (late s1) (late s)) as [Heq|Hne]; [exact Heq|].
              pose proof (late_means_cancelled poll p s o1 s1 Hm E1 Hne) as Hc1.
              unfold cancelled in Hc1. congruence. }
            destruct (IHq (tick s1) o s' Hm H) as [IHqc IHqb]. simpl in IHqc, IHqb.
-           split.
-           ++ intro Hc. exfalso.
-              pose proof (run_keeps_cancelled poll p s o1 s1 Hm E1 Hc) as Hc1.
-              unfold cancelled in Hc1. congruence.
-           ++ intro Hnc. destruct (cancelled_dec poll (tick s1)) as [Hc2|Hn2].
-              ** specialize (IHqc Hc2). lia.
-              ** specialize (IHqb Hn2). lia.
+           destruct (cancelled_dec poll (tick s1)) as [Hc2|Hn2].
+           ++ specialize (IHqc Hc2). destruct (tight p); lia.
+           ++ specialize (IHqb Hn2). destruct (tight p); lia.
 Qed.
 
 Lemma late_bound_lbc : forall poll p s o s', mono poll -> run poll p s = (o, s') ->
